@@ -672,7 +672,7 @@ def run_variation_child(var: dict, calls_by_id: dict, tape_values=None) -> dict:
                 # the SAME call on an almost identical text (another normalisation form, case, whitespace): whatever the
                 # process remembers about the twin must not leak into the answer for the probe
                 for rep, tw in enumerate(c06_calls.near_twins(c0["text"])):
-                    hist.append(dict(c0, id=650000 + pid_ * 8 + rep, text=tw))
+                    hist.append(dict(c0, id=650000 + pid_ * 16 + rep, text=tw))
     if var.get("nasty_history"):
         hist = hist + NASTY
         hist = tape.shuffle(hist, "hist.order")
